@@ -117,7 +117,7 @@ func (v *c19Violator) violate(sig map[string]interface{}, replay interface{}, fo
 	n := v.count[k]
 	v.mu.Unlock()
 	if n <= 2 {
-		v.res.Violate(sig, replay, format, a...)
+		v.res.Violate(sig, map[string]interface{}{"violated": sig, "input": replay}, format, a...)
 	}
 }
 
